@@ -24,10 +24,12 @@ def pairOps : Nat → Nat → List Op
       :: .unref (2 * h + 1) :: pairOps k (h + 1)
 
 set_option maxRecDepth 1000000 in
-/-- 256 pairs: 256 copies of the page are cached and `n_subpages` (uint8_t) reads 0 -/
-theorem nsub_wrap_witness :
-    ((run init (.addNet :: pairOps 256 0)).nets.map (fun n => ((n.getStat 0x101).nSub,
-        (run init (.addNet :: pairOps 256 0)).pages.countP (fun p => p.net = n.id ∧ p.pgno = 0x101)))) = [(0, 256)] := by
+/-- 81 pairs: 81 retrievable copies of one page number (cache.c asserts `n_subpages <= 80` under
+    CACHE_CONSISTENCY), all under the same (network, page, subpage) key -/
+theorem page_bound_witness :
+    ((run init (.addNet :: pairOps 81 0)).nets.map (fun n => ((n.getStat 0x101).nSub,
+        (run init (.addNet :: pairOps 81 0)).pages.countP (fun p => p.net = n.id ∧ p.pgno = 0x101 ∧ p.subno = 0x102
+          ∧ p.pri ≠ .zombie)))) = [(81, 81)] := by
   decide +kernel
 
 /-- latent (memory limit is a constant in 0.2): with a limit that leaves exactly the size difference free,
